@@ -135,8 +135,9 @@ def run(ctx, rep):
     st = [n for n, c in node_calls(cfg, "_update_status") if utext(c.args[0]) == "TradeStatus.COMPLETE"]
     rs = node_calls(cfg, "reset")
     good = len(st) == 1 and len(rs) == 1 and cfg.unconditional(rs[0][0].id) and utext(rs[0][1].args[0]) == "self.id"
-    d = [s for s in walk_nodes(ctf.node.body, ast.Assign) if utext(s.targets[0]) == "runner_context"]
-    good = good and len(d) == 1 and " ".join(utext(d[0].value).split()) == \
+    from sa.kinds import resolve_local as _rl
+    rcv = _rl(ctf, rs[0][1].func.value) if rs else None   # the context, directly or through the local naming it
+    good = good and rcv is not None and " ".join(utext(rcv).split()) == \
         "self.strategy.get_runner_context(self.market_id, self.selection_id, self.handicap)"
     rep.check(good, "R3", key(ctf, None, "completion marks COMPLETE and frees the slot of (market, selection, handicap)"),
               ctf)
